@@ -15,6 +15,7 @@ import (
 type c09Case struct {
 	History []string `json:"history"` // message names
 	Saves   []bool   `json:"saves"`   // Saves[i]: round-trip the state through JSON after message i
+	Limit   int      `json:"limit"`   // step limit of every Walk call (0: 20); small limits stop walks at action nodes
 }
 
 var c09Producers = []struct{ Name, JS string }{
@@ -68,12 +69,18 @@ func c09Spec() *rstep.ASpec {
 		nodes["y-"+i.Name] = &rstep.ANode{Action: &actlang.Prog{Ops: []Op{{K: actlang.Emit, V: M{"inspector": i.Name, "matched": true}}}}, Branches: []rstep.ABranch{{Target: "idle"}}}
 		nodes["n-"+i.Name] = &rstep.ANode{Action: &actlang.Prog{Ops: []Op{{K: actlang.Emit, V: M{"inspector": i.Name, "matched": false}}}}, Branches: []rstep.ABranch{{Target: "idle"}}}
 	}
+	// a branch without a pattern: any other message is consumed by it (followed only with non-nil bindings)
+	hub = append(hub, rstep.ABranch{Target: "dflt"})
+	nodes["dflt"] = &rstep.ANode{Action: &actlang.Prog{Ops: []Op{{K: actlang.Emit, V: M{"unexpected": true}}}}, Branches: []rstep.ABranch{{Target: "idle"}}}
 	nodes["idle"] = &rstep.ANode{Type: "message", Branches: hub}
 	nodes["error"] = &rstep.ANode{Type: "message", Branches: hub} // the machine stays usable at the error node
 	return &rstep.ASpec{Nodes: nodes}
 }
 
 func c09Msg(name string) interface{} {
+	if name == "other" {
+		return M{"zzz": 1.0}
+	}
 	for _, p := range c09Producers {
 		if p.Name == name {
 			return M{"do": name}
@@ -91,12 +98,16 @@ type c09Step struct {
 
 func c09RunHistory(spec *core.Spec, cs c09Case, roundTrip bool) ([]c09Step, string) {
 	st := &core.State{NodeName: "idle", Bs: match.NewBindings()}
+	limit := cs.Limit
+	if limit == 0 {
+		limit = 20
+	}
 	var out []c09Step
 	for i, name := range cs.History {
 		var w *core.Walked
 		var err error
 		if p, pm, where := vh.Trap(func() {
-			w, err = spec.Walk(context.Background(), st, []interface{}{c09Msg(name)}, &core.Control{Limit: 20}, nil)
+			w, err = spec.Walk(context.Background(), st, []interface{}{c09Msg(name)}, &core.Control{Limit: limit}, nil)
 		}); p {
 			return out, "panic/" + where + ": " + pm
 		}
@@ -216,9 +227,15 @@ func C09(c *vh.Ctx) {
 	for _, i := range c09Inspectors {
 		names = append(names, i.Name)
 	}
+	names = append(names, "other")
+	limits := []int{20, 2}
+	if c.Tier == "thorough" {
+		limits = []int{20, 1, 2, 3}
+	}
+	c.Bound("step_limits", limits)
 	c.Bound("history_max", maxLen)
 	c.Bound("messages", len(names))
-	c.Rule(fmt.Sprintf("one specification with %d ECMAScript producer actions (integers, fractions, arrays of numbers / objects, nested objects, nulls, in-place edits, computed numbers, a failing action, reset) and %d inspector branches (patterns over the produced values, incl. lastBindings/lastNode at the error node and an inequality); every message history up to the bound over all %d messages x every subset of message boundaries as save points (state -> JSON -> state); oracle: per message equal (node, canonical bindings, emitted) between the in-memory run and the persisted run. states = histories, transitions = messages processed; non-trivial = at least one save point.", len(c09Producers), len(c09Inspectors), len(names)))
+	c.Rule(fmt.Sprintf("one specification with %d ECMAScript producer actions (integers, fractions, arrays of numbers / objects, nested objects, nulls, in-place edits, computed numbers, a failing action, reset) and %d inspector branches (patterns over the produced values, incl. lastBindings/lastNode at the error node and an inequality); every message history up to the bound over all %d messages (incl. one consumed by a pattern-less default branch) x every step limit of the bound (small limits stop a walk at an action node, which is then also a save point) x every subset of message boundaries as save points (state -> JSON -> state); oracle: per message equal (node, canonical bindings, emitted) between the in-memory run and the persisted run. states = histories, transitions = messages processed; non-trivial = at least one save point.", len(c09Producers), len(c09Inspectors), len(names)))
 	var idx uint64
 	var rec func(h []string)
 	rec = func(h []string) {
@@ -233,7 +250,10 @@ func C09(c *vh.Ctx) {
 						saves[j] = mask&(1<<uint(j)) != 0
 					}
 					cs := c09Case{History: append([]string{}, h...), Saves: saves}
-					c09One(c, spec, cs)
+					for _, lim := range limits {
+						cs.Limit = lim
+						c09One(c, spec, cs)
+					}
 					if c.WantSample() && n == maxLen && mask == 1<<uint(n-1)-1 {
 						c.Sample(cs)
 					}
